@@ -279,6 +279,9 @@ func (p *Prog) Named(pkg, name string) (*types.Named, error) {
 	}
 	obj := tp.Scope().Lookup(name)
 	tn, ok := obj.(*types.TypeName)
+	if !ok && p.Ren != nil {
+		tn, ok = p.Ren.Types[tp.Path()+"\t"+name]
+	}
 	if !ok {
 		return nil, &Unresolved{pkg + "." + name}
 	}
@@ -297,6 +300,10 @@ func (p *Prog) Field(pkg, typ, path string) (*types.Var, error) {
 	}
 	var t types.Type = n
 	var fv *types.Var
+	owner, ownerPkg := n.Obj().Name(), ""
+	if n.Obj().Pkg() != nil {
+		ownerPkg = n.Obj().Pkg().Path()
+	}
 	for _, part := range strings.Split(path, ".") {
 		st, ok := deref(t).Underlying().(*types.Struct)
 		if !ok {
@@ -310,14 +317,21 @@ func (p *Prog) Field(pkg, typ, path string) (*types.Var, error) {
 			}
 		}
 		if fv == nil && p.Ren != nil {
-			if nt, ok := deref(t).(*types.Named); ok && nt.Obj().Pkg() != nil {
-				fv = p.Ren.Fields[nt.Obj().Pkg().Path()+"\t"+nt.Obj().Name()+"\t"+part]
-			}
+			fv = p.Ren.Fields[ownerPkg+"\t"+owner+"\t"+part]
 		}
 		if fv == nil {
 			return nil, &Unresolved{fmt.Sprintf("%s.%s.%s (no field %s)", pkg, typ, path, part)}
 		}
 		t = fv.Type()
+		if nt, ok := deref(t).(*types.Named); ok {
+			owner = nt.Obj().Name()
+			if nt.Obj().Pkg() != nil {
+				ownerPkg = nt.Obj().Pkg().Path()
+			}
+		} else {
+			// an anonymous struct nested in the owner: inventory name of the field (the path is given in inventory names)
+			owner = owner + "." + part
+		}
 	}
 	return fv, nil
 }
@@ -383,6 +397,9 @@ func (p *Prog) funcObj(pkg, name string) (*types.Func, error) {
 		return f, nil
 	}
 	tn, ok := tp.Scope().Lookup(recv).(*types.TypeName)
+	if !ok && p.Ren != nil {
+		tn, ok = p.Ren.Types[tp.Path()+"\t"+recv]
+	}
 	if !ok {
 		return nil, &Unresolved{pkg + "." + recv}
 	}
@@ -530,6 +547,23 @@ func ShortFunc(fn *ssa.Function) string {
 		return "<nil>"
 	}
 	s := fn.RelString(originPkg(fn))
+	if len(canon.CanonT) > 0 {
+		top := fn
+		for top.Parent() != nil {
+			top = top.Parent()
+		}
+		if sig := top.Signature; sig != nil && sig.Recv() != nil {
+			t := sig.Recv().Type()
+			if pt, ok := t.(*types.Pointer); ok {
+				t = pt.Elem()
+			}
+			if nt, ok := t.(*types.Named); ok {
+				if old, ok := canon.CanonT[nt.Obj()]; ok {
+					s = strings.Replace(s, nt.Obj().Name()+")", old+")", 1)
+				}
+			}
+		}
+	}
 	if len(canon.CanonF) > 0 {
 		// a renamed function is reported (and looked up in reviewed tables) under its inventory name
 		top := fn
